@@ -1399,7 +1399,7 @@ def probability_bounds(v, bounds):
     -------
     numpy.array of bounded values
     """
-    v = np.asarray(v)
+    v = np.array(v)
     if type(bounds) is float:  # Symmetric Bounding
         if bounds < 0 or bounds > 1:
             raise ValueError('Bound value must be between (0, 1)')
